@@ -46,6 +46,7 @@ type vsimTask struct {
 	owner     string // association name or "" (census)
 	nlocks    int
 	steps     int
+	wokeStep  int // step number at which the task last resumed from a blocking operation / started
 }
 
 type vsimLockState struct {
@@ -71,12 +72,14 @@ type vsimSim struct {
 	selTape  *vsimTape
 	yieldPPM uint32 // probability (per million) of a voluntary yield at a lock acquisition
 
+	lastLib    string
 	panicked   bool
 	panicMsg   string
 	harnessErr string
 
 	trace     vsimHash
 	nSteps    int
+	nLibSteps int // steps of tasks that are not harness client tasks
 	nYields   int
 	nSelMulti int // selects that found >= 2 ready clauses (reach probe)
 	onLockHeldAtCallback func(t *vsimTask)
@@ -689,9 +692,16 @@ func (s *vsimSim) releaseTask(t *vsimTask) {
 	}
 	t.parked = false
 	t.steps++
+	if t.kind == vsimParkWoke || t.kind == vsimParkStart {
+		t.wokeStep = s.nSteps + 1
+	}
 	s.cur = t
 	s.last = t
 	s.nSteps++
+	if !t.client {
+		s.nLibSteps++
+		s.lastLib = t.name + "@" + t.site
+	}
 	s.trace.addString(t.name)
 	s.trace.addString(t.site)
 	if s.traceLog != nil {
